@@ -110,11 +110,11 @@ package v1
 //@   ensures @C06 r != nil && oidv(r) == specExtOid(1)
 
 //@ func (KeyUsage).Builder returns (b, err)
-//@   props C06 C07
+//@   props C06 C07 C08
 //@   uses v1ext.smt2
 //@   inline commonExtensionHandler
 //@   let CT = old(seq(k.Content))
-//@   ensures @C06 k.Raw == "" && k.Content == nil ==> err == nil && typeis(b, "gopki/generator/config.OverrideNeededBuilder")
+//@   ensures @C06,C08 k.Raw == "" && k.Content == nil ==> err == nil && typeis(b, "gopki/generator/config.OverrideNeededBuilder")
 //@   ensures @C06 k.Raw != "" && k.Content != nil ==> err != nil
 //@   ensures @C06 k.Raw != "" && k.Content == nil ==> ((err == nil) <==> rawOk(k.Raw))
 //@   ensures @C06 k.Raw != "" && k.Content == nil && err == nil ==> typeis(b, "gopki/generator/config.ConstantBuilder") && oidv(unboxed(b, "gopki/generator/config.ConstantBuilder").Extension.Id) == specExtOid(1) && unboxed(b, "gopki/generator/config.ConstantBuilder").Extension.Critical == k.Critical && bytes(unboxed(b, "gopki/generator/config.ConstantBuilder").Extension.Value) == rawBytes(k.Raw)
@@ -131,10 +131,10 @@ package v1
 //@   ensures @C06 r != nil && oidv(r) == specExtOid(0)
 
 //@ func (SubjectKeyIdentifier).Builder returns (b, err)
-//@   props C06 C07
+//@   props C06 C07 C08
 //@   uses v1ext.smt2
 //@   inline commonExtensionHandler
-//@   ensures @C06 s.Raw == "" && s.Content == "" ==> err == nil && typeis(b, "gopki/generator/config.OverrideNeededBuilder")
+//@   ensures @C06,C08 s.Raw == "" && s.Content == "" ==> err == nil && typeis(b, "gopki/generator/config.OverrideNeededBuilder")
 //@   ensures @C06 s.Raw != "" && s.Content != "" ==> err != nil
 //@   ensures @C06 s.Raw != "" && s.Content == "" ==> ((err == nil) <==> rawOk(s.Raw))
 //@   ensures @C06 s.Raw != "" && s.Content == "" && err == nil ==> typeis(b, "gopki/generator/config.ConstantBuilder") && oidv(unboxed(b, "gopki/generator/config.ConstantBuilder").Extension.Id) == specExtOid(0) && unboxed(b, "gopki/generator/config.ConstantBuilder").Extension.Critical == s.Critical && bytes(unboxed(b, "gopki/generator/config.ConstantBuilder").Extension.Value) == rawBytes(s.Raw)
@@ -156,10 +156,10 @@ package v1
 //@   ensures @C06 r != nil && oidv(r) == specExtOid(5)
 
 //@ func (SubjectAltName).Builder returns (b, err)
-//@   props C06 C07
+//@   props C06 C07 C08
 //@   uses v1ext.smt2
 //@   inline commonExtensionHandler
-//@   ensures @C06 s.Raw == "" && s.Content == nil ==> err == nil && typeis(b, "gopki/generator/config.OverrideNeededBuilder")
+//@   ensures @C06,C08 s.Raw == "" && s.Content == nil ==> err == nil && typeis(b, "gopki/generator/config.OverrideNeededBuilder")
 //@   ensures @C06 s.Raw != "" && s.Content != nil ==> err != nil
 //@   ensures @C06 s.Raw != "" && s.Content == nil ==> ((err == nil) <==> rawOk(s.Raw))
 //@   ensures @C06 s.Raw != "" && s.Content == nil && err == nil ==> typeis(b, "gopki/generator/config.ConstantBuilder") && oidv(unboxed(b, "gopki/generator/config.ConstantBuilder").Extension.Id) == specExtOid(5) && unboxed(b, "gopki/generator/config.ConstantBuilder").Extension.Critical == s.Critical && bytes(unboxed(b, "gopki/generator/config.ConstantBuilder").Extension.Value) == rawBytes(s.Raw)
@@ -182,10 +182,10 @@ package v1
 //@   ensures @C06 r != nil && oidv(r) == specExtOid(4)
 
 //@ func (BasicConstraints).Builder returns (res, err)
-//@   props C06 C07
+//@   props C06 C07 C08
 //@   uses v1ext.smt2
 //@   inline commonExtensionHandler
-//@   ensures @C06 b.Raw == "" && b.Content == nil ==> err == nil && typeis(res, "gopki/generator/config.OverrideNeededBuilder")
+//@   ensures @C06,C08 b.Raw == "" && b.Content == nil ==> err == nil && typeis(res, "gopki/generator/config.OverrideNeededBuilder")
 //@   ensures @C06 b.Raw != "" && b.Content != nil ==> err != nil
 //@   ensures @C06 b.Raw != "" && b.Content == nil ==> ((err == nil) <==> rawOk(b.Raw))
 //@   ensures @C06 b.Raw != "" && b.Content == nil && err == nil ==> typeis(res, "gopki/generator/config.ConstantBuilder") && oidv(unboxed(res, "gopki/generator/config.ConstantBuilder").Extension.Id) == specExtOid(4) && unboxed(res, "gopki/generator/config.ConstantBuilder").Extension.Critical == b.Critical && bytes(unboxed(res, "gopki/generator/config.ConstantBuilder").Extension.Value) == rawBytes(b.Raw)
@@ -198,10 +198,10 @@ package v1
 //@   ensures @C06 r != nil && oidv(r) == specExtOid(6)
 
 //@ func (CertPolicies).Builder returns (b, err)
-//@   props C06 C07
+//@   props C06 C07 C08
 //@   uses v1ext.smt2
 //@   inline commonExtensionHandler
-//@   ensures @C06 c.Raw == "" && c.Content == nil ==> err == nil && typeis(b, "gopki/generator/config.OverrideNeededBuilder")
+//@   ensures @C06,C08 c.Raw == "" && c.Content == nil ==> err == nil && typeis(b, "gopki/generator/config.OverrideNeededBuilder")
 //@   ensures @C06 c.Raw != "" && c.Content != nil ==> err != nil
 //@   ensures @C06 c.Raw != "" && c.Content == nil ==> ((err == nil) <==> rawOk(c.Raw))
 //@   ensures @C06 c.Raw != "" && c.Content == nil && err == nil ==> typeis(b, "gopki/generator/config.ConstantBuilder") && oidv(unboxed(b, "gopki/generator/config.ConstantBuilder").Extension.Id) == specExtOid(6) && unboxed(b, "gopki/generator/config.ConstantBuilder").Extension.Critical == c.Critical && bytes(unboxed(b, "gopki/generator/config.ConstantBuilder").Extension.Value) == rawBytes(c.Raw)
@@ -232,10 +232,10 @@ package v1
 //@   ensures @C06 r != nil && oidv(r) == specExtOid(9)
 
 //@ func (AuthInfoAccess).Builder returns (b, err)
-//@   props C06 C07
+//@   props C06 C07 C08
 //@   uses v1ext.smt2
 //@   inline commonExtensionHandler
-//@   ensures @C06 a.Raw == "" && a.Content == nil ==> err == nil && typeis(b, "gopki/generator/config.OverrideNeededBuilder")
+//@   ensures @C06,C08 a.Raw == "" && a.Content == nil ==> err == nil && typeis(b, "gopki/generator/config.OverrideNeededBuilder")
 //@   ensures @C06 a.Raw != "" && a.Content != nil ==> err != nil
 //@   ensures @C06 a.Raw != "" && a.Content == nil ==> ((err == nil) <==> rawOk(a.Raw))
 //@   ensures @C06 a.Raw != "" && a.Content == nil && err == nil ==> typeis(b, "gopki/generator/config.ConstantBuilder") && oidv(unboxed(b, "gopki/generator/config.ConstantBuilder").Extension.Id) == specExtOid(9) && unboxed(b, "gopki/generator/config.ConstantBuilder").Extension.Critical == a.Critical && bytes(unboxed(b, "gopki/generator/config.ConstantBuilder").Extension.Value) == rawBytes(a.Raw)
@@ -253,10 +253,10 @@ package v1
 //@   ensures @C06 r != nil && oidv(r) == specExtOid(3)
 
 //@ func (AuthKeyId).Builder returns (b, err)
-//@   props C06 C07
+//@   props C06 C07 C08
 //@   uses v1ext.smt2
 //@   inline commonExtensionHandler
-//@   ensures @C06 a.Raw == "" && a.Content.Id == "" ==> err == nil && typeis(b, "gopki/generator/config.OverrideNeededBuilder")
+//@   ensures @C06,C08 a.Raw == "" && a.Content.Id == "" ==> err == nil && typeis(b, "gopki/generator/config.OverrideNeededBuilder")
 //@   ensures @C06 a.Raw != "" && a.Content.Id != "" ==> err != nil
 //@   ensures @C06 a.Raw != "" && a.Content.Id == "" ==> ((err == nil) <==> rawOk(a.Raw))
 //@   ensures @C06 a.Raw != "" && a.Content.Id == "" && err == nil ==> typeis(b, "gopki/generator/config.ConstantBuilder") && oidv(unboxed(b, "gopki/generator/config.ConstantBuilder").Extension.Id) == specExtOid(3) && unboxed(b, "gopki/generator/config.ConstantBuilder").Extension.Critical == a.Critical && bytes(unboxed(b, "gopki/generator/config.ConstantBuilder").Extension.Value) == rawBytes(a.Raw)
@@ -280,10 +280,10 @@ package v1
 //@   ensures @C06 r != nil && oidv(r) == specExtOid(2)
 
 //@ func (ExtKeyUsage).Builder returns (b, err)
-//@   props C06 C07
+//@   props C06 C07 C08
 //@   uses v1ext.smt2
 //@   inline commonExtensionHandler
-//@   ensures @C06 e.Raw == "" && e.Content == nil ==> err == nil && typeis(b, "gopki/generator/config.OverrideNeededBuilder")
+//@   ensures @C06,C08 e.Raw == "" && e.Content == nil ==> err == nil && typeis(b, "gopki/generator/config.OverrideNeededBuilder")
 //@   ensures @C06 e.Raw != "" && e.Content != nil ==> err != nil
 //@   ensures @C06 e.Raw != "" && e.Content == nil ==> ((err == nil) <==> rawOk(e.Raw))
 //@   ensures @C06 e.Raw != "" && e.Content == nil && err == nil ==> typeis(b, "gopki/generator/config.ConstantBuilder") && oidv(unboxed(b, "gopki/generator/config.ConstantBuilder").Extension.Id) == specExtOid(2) && unboxed(b, "gopki/generator/config.ConstantBuilder").Extension.Critical == e.Critical && bytes(unboxed(b, "gopki/generator/config.ConstantBuilder").Extension.Value) == rawBytes(e.Raw)
@@ -309,10 +309,10 @@ package v1
 //@   ensures @C06 r != nil && oidv(r) == specExtOid(11)
 
 //@ func (AdmissionExtension).Builder returns (b, err)
-//@   props C06 C07
+//@   props C06 C07 C08
 //@   uses v1ext.smt2
 //@   inline commonExtensionHandler
-//@   ensures @C06 a.Raw == "" && a.Content == nil ==> err == nil && typeis(b, "gopki/generator/config.OverrideNeededBuilder")
+//@   ensures @C06,C08 a.Raw == "" && a.Content == nil ==> err == nil && typeis(b, "gopki/generator/config.OverrideNeededBuilder")
 //@   ensures @C06 a.Raw != "" && a.Content != nil ==> err != nil
 //@   ensures @C06 a.Raw != "" && a.Content == nil ==> ((err == nil) <==> rawOk(a.Raw))
 //@   ensures @C06 a.Raw != "" && a.Content == nil && err == nil ==> typeis(b, "gopki/generator/config.ConstantBuilder") && oidv(unboxed(b, "gopki/generator/config.ConstantBuilder").Extension.Id) == specExtOid(11) && unboxed(b, "gopki/generator/config.ConstantBuilder").Extension.Critical == a.Critical && bytes(unboxed(b, "gopki/generator/config.ConstantBuilder").Extension.Value) == rawBytes(a.Raw)
@@ -324,7 +324,7 @@ package v1
 //@   ensures @C06 r != nil && oidv(r) == specExtOid(12)
 
 //@ func (OcspNoCheckExtension).Builder returns (b, err)
-//@   props C06 C07
+//@   props C06 C07 C08
 //@   uses v1ext.smt2
 //@   inline commonExtensionHandler
 //@   ensures @C06 o.Raw != "" ==> ((err == nil) <==> rawOk(o.Raw))
@@ -340,11 +340,11 @@ package v1
 //@   ensures @C06 oidv(r) == parseOid(c.OidStr)
 
 //@ func (CustomExtension).Builder returns (b, err)
-//@   props C06
+//@   props C06 C08
 //@   uses v1ext.smt2
 //@   inline commonExtensionHandler
 //@   requires isOidStr(c.OidStr)
-//@   ensures @C06 c.Raw == "" ==> err == nil && typeis(b, "gopki/generator/config.OverrideNeededBuilder")
+//@   ensures @C06,C08 c.Raw == "" ==> err == nil && typeis(b, "gopki/generator/config.OverrideNeededBuilder")
 //@   ensures @C06 c.Raw != "" ==> ((err == nil) <==> rawOk(c.Raw))
 //@   ensures @C06 c.Raw != "" && err == nil ==> typeis(b, "gopki/generator/config.ConstantBuilder") && oidv(unboxed(b, "gopki/generator/config.ConstantBuilder").Extension.Id) == parseOid(c.OidStr) && unboxed(b, "gopki/generator/config.ConstantBuilder").Extension.Critical == c.Critical && bytes(unboxed(b, "gopki/generator/config.ConstantBuilder").Extension.Value) == rawBytes(c.Raw)
 
